@@ -786,3 +786,446 @@ func (v *sxView) normalizeMapKeyLoads(paths []*Path) []*Path {
 	}
 	return out
 }
+
+// ---------------------------------------------------------------- flags and breaks
+//
+// A search or comparison loop can report its outcome through a local variable instead of returning from inside the loop:
+//
+//	found := false; for … { if hit { found = true; break } }; return found
+//	equal := true;  for i := 0; equal && i < n; i++ { equal = test(i) };  return equal
+//
+// flagNorm rewrites the paths of such a function into the early-return form the rules read (the in-loop exit carries the function's
+// result), when — and only when — the code after the loop does nothing but decide on those variables:
+//
+//	N1  a conjunct of the loop condition that is a loop-carried boolean, true at entry, becomes a break at the end of the
+//	    iterations that falsify it;
+//	N2  a variable that every continuing iteration leaves at its initial value has that value when the loop is exhausted, and the
+//	    value the breaking iteration gave it when the loop is left by break; the code after the loop is folded with it.
+
+// condValue: what the conditions of p say about the boolean term t.
+func condValue(p *Path, t Term) (val, known bool) {
+	want := true
+	for {
+		u, ok := t.(TUn)
+		if !ok || u.Op != token.NOT {
+			break
+		}
+		t, want = u.X, !want
+	}
+	for _, cd := range p.Conds() {
+		x, truth := cd.T, cd.Truth
+		for {
+			u, ok := x.(TUn)
+			if !ok || u.Op != token.NOT {
+				break
+			}
+			x, truth = u.X, !truth
+		}
+		if sameTerm(x, t) {
+			return truth == want, true
+		}
+	}
+	return false, false
+}
+
+func boolTerm(b bool) Term { return TConst{constant.MakeBool(b)} }
+
+func constBoolOf(t Term) (bool, bool) {
+	k, ok := t.(TConst)
+	if !ok || k.Val.Kind() != constant.Bool {
+		return false, false
+	}
+	return constant.BoolVal(k.Val), true
+}
+
+// exitVal: the value of the loop-carried variable o at the end of iteration path ip (a boolean the path's conditions decide is
+// that constant).
+func exitVal(l *LoopRec, ip *Path, o types.Object) Term {
+	t, ok := ip.Env[o]
+	if !ok {
+		return TLoop{o, l.ID}
+	}
+	if _, isC := constBoolOf(t); !isC && types.Identical(o.Type().Underlying(), types.Typ[types.Bool]) {
+		if b, known := condValue(ip, t); known {
+			return boolTerm(b)
+		}
+	}
+	return t
+}
+
+func conjuncts(t Term) []Term {
+	if b, ok := t.(TBin); ok && b.Op == token.LAND {
+		return append(conjuncts(b.X), conjuncts(b.Y)...)
+	}
+	return []Term{t}
+}
+
+func clonePath(p *Path) *Path {
+	q := *p
+	q.Steps = append([]Step(nil), p.Steps...)
+	q.Vals = append([]Term(nil), p.Vals...)
+	q.Env = copyEnv(p.Env)
+	return &q
+}
+
+// flagCond is N1; nil when the loop has no such conjunct. The returned substitution replaces the flag at the head of an
+// iteration by the value the dropped conjunct guarantees.
+func (c *Ctx) flagCond(l *LoopRec) (*LoopRec, func(Term) (Term, bool)) {
+	if l.For == nil || l.CondT == nil {
+		return nil, nil
+	}
+	cs := conjuncts(l.CondT)
+	if len(cs) < 2 {
+		return nil, nil
+	}
+	for ci, cj := range cs {
+		want := true
+		t := cj
+		for {
+			u, ok := t.(TUn)
+			if !ok || u.Op != token.NOT {
+				break
+			}
+			t, want = u.X, !want
+		}
+		lv, ok := t.(TLoop)
+		if !ok || lv.ID != l.ID || !types.Identical(lv.Obj.Type().Underlying(), types.Typ[types.Bool]) {
+			continue
+		}
+		o := lv.Obj
+		b0, ok := constBoolOf(simplify(l.Init[o]))
+		if l.Init[o] == nil || !ok || b0 != want {
+			continue
+		}
+		assignedByPost := false
+		if l.Post != nil {
+			for _, po := range c.assignedInStmt(l.Post) {
+				if po == o {
+					assignedByPost = true
+				}
+			}
+		}
+		if assignedByPost {
+			continue
+		}
+		sub := func(t Term) (Term, bool) {
+			if x, ok := t.(TLoop); ok && x.ID == l.ID && x.Obj == o {
+				return boolTerm(want), true
+			}
+			return nil, false
+		}
+		r := *l
+		var rest Term
+		for k, other := range cs {
+			if k == ci {
+				continue
+			}
+			if rest == nil {
+				rest = other
+			} else {
+				rest = TBin{Op: token.LAND, X: rest, Y: other}
+			}
+		}
+		r.CondT = mapTerm(rest, sub)
+		r.Iter = nil
+		for _, ip0 := range l.Iter {
+			ip := mapPath(ip0, sub)
+			if ip.End != "fall" && ip.End != "continue" {
+				r.Iter = append(r.Iter, ip)
+				continue
+			}
+			t, has := ip.Env[o]
+			if !has {
+				r.Iter = append(r.Iter, ip)
+				continue
+			}
+			if b, isC := constBoolOf(exitVal(l, ip, o)); isC {
+				ip.Env[o] = boolTerm(b)
+				if b != want {
+					ip.End = "break"
+				}
+				r.Iter = append(r.Iter, ip)
+				continue
+			}
+			stay, leave := clonePath(ip), clonePath(ip)
+			stay.Steps = append(stay.Steps, Step{Kind: "cond", Cond: Cond{T: t, Truth: want, Node: l.For.Cond}, Node: l.For.Cond})
+			stay.Env[o] = boolTerm(want)
+			leave.Steps = append(leave.Steps, Step{Kind: "cond", Cond: Cond{T: t, Truth: !want, Node: l.For.Cond}, Node: l.For.Cond})
+			leave.Env[o] = boolTerm(!want)
+			leave.End = "break"
+			r.Iter = append(r.Iter, stay, leave)
+		}
+		return &r, sub
+	}
+	return nil, nil
+}
+
+func insideNode(n ast.Node, outer ast.Node) bool {
+	return n != nil && outer != nil && n.Pos() >= outer.Pos() && n.Pos() < outer.End()
+}
+
+// flagNorm applies N1 and N2 to the top-level loops of the paths of one function.
+func (v *sxView) flagNorm(paths []*Path) []*Path {
+	c := v.c
+	// N1
+	type n1res struct {
+		l   *LoopRec
+		sub func(Term) (Term, bool)
+	}
+	n1 := map[*LoopRec]n1res{}
+	cur := make([]*Path, len(paths))
+	for i, p := range paths {
+		q := p
+		for k := 0; k < len(q.Steps); k++ {
+			s := q.Steps[k]
+			if s.Kind != "loop" || s.Loop == nil {
+				continue
+			}
+			r, done := n1[s.Loop]
+			if !done {
+				r.l, r.sub = c.flagCond(s.Loop)
+				n1[s.Loop] = r
+			}
+			if r.l == nil {
+				continue
+			}
+			if q == p {
+				q = clonePath(p)
+			}
+			q.Steps[k].Loop = r.l
+			if insideNode(q.Node, s.Loop.Node) && (q.End == "return" || q.End == "panic") {
+				// an exit from inside this loop: its remaining steps are those of the iteration
+				tail := mapPath(&Path{Steps: q.Steps[k+1:], Vals: q.Vals}, r.sub)
+				q.Steps = append(q.Steps[:k+1:k+1], tail.Steps...)
+				q.Vals = tail.Vals
+			}
+		}
+		cur[i] = q
+	}
+	// N2
+	type group struct {
+		loop   *LoopRec
+		after  []int // paths that leave the loop by exhaustion or break and run the code after it
+		inloop []int
+		li     map[int]int
+		bad    bool
+	}
+	var order []*LoopRec
+	groups := map[*LoopRec]*group{}
+	for i, p := range cur {
+		li := -1
+		for k, s := range p.Steps {
+			if s.Kind == "loop" && s.Loop != nil {
+				li = k
+			}
+		}
+		if li < 0 {
+			continue
+		}
+		l := p.Steps[li].Loop
+		hasBreak := false
+		for _, ip := range l.Iter {
+			if ip.End == "break" {
+				hasBreak = true
+			}
+		}
+		if !hasBreak {
+			continue
+		}
+		g := groups[l]
+		if g == nil {
+			g = &group{loop: l, li: map[int]int{}}
+			groups[l] = g
+			order = append(order, l)
+		}
+		g.li[i] = li
+		if insideNode(p.Node, l.Node) && (p.End == "return" || p.End == "panic") {
+			g.inloop = append(g.inloop, i)
+			continue
+		}
+		g.after = append(g.after, i)
+		if p.End != "return" && p.End != "panic" {
+			g.bad = true
+		}
+		for _, s := range p.Steps[li+1:] {
+			if s.Kind != "cond" {
+				g.bad = true
+			}
+		}
+	}
+	drop := map[int]bool{}
+	repl := map[int]*Path{}
+	var added, last []*Path
+	for _, l := range order {
+		g := groups[l]
+		if g.bad || len(g.after) == 0 {
+			continue
+		}
+		// the loop-carried variables the code after the loop reads
+		mentioned := map[types.Object]bool{}
+		note := func(t Term) {
+			collectSubterms(t, func(s Term) {
+				if lv, ok := s.(TLoop); ok && lv.ID == l.ID {
+					mentioned[lv.Obj] = true
+				}
+			})
+		}
+		for _, i := range g.after {
+			p := cur[i]
+			for _, s := range p.Steps[g.li[i]+1:] {
+				note(s.Cond.T)
+			}
+			for _, t := range p.Vals {
+				note(t)
+			}
+		}
+		if len(mentioned) == 0 {
+			continue
+		}
+		ok := true
+		for o := range mentioned {
+			init, has := l.Init[o]
+			if !has {
+				ok = false
+				break
+			}
+			for _, ip := range l.Iter {
+				if ip.End != "fall" && ip.End != "continue" {
+					continue
+				}
+				ev := exitVal(l, ip, o)
+				if lv, same := ev.(TLoop); same && lv.ID == l.ID && lv.Obj == o {
+					continue
+				}
+				if !sameTerm(simplify(ev), simplify(init)) {
+					ok = false
+				}
+			}
+		}
+		if !ok {
+			continue
+		}
+		// the exits: exhaustion (nil) and every breaking iteration
+		exits := []*Path{nil}
+		for _, ip := range l.Iter {
+			if ip.End == "break" {
+				exits = append(exits, ip)
+			}
+		}
+		type pick struct {
+			a    int
+			vals []Term
+		}
+		picks := make([]pick, len(exits))
+		for ei, ex := range exits {
+			sub := func(t Term) (Term, bool) {
+				lv, isL := t.(TLoop)
+				if !isL || lv.ID != l.ID || !mentioned[lv.Obj] {
+					return nil, false
+				}
+				if ex != nil {
+					ev := exitVal(l, ex, lv.Obj)
+					if x, same := ev.(TLoop); !same || x.ID != l.ID || x.Obj != lv.Obj {
+						return ev, true
+					}
+				}
+				return l.Init[lv.Obj], true
+			}
+			chosen := -1
+			for _, i := range g.after {
+				p := cur[i]
+				feasible := true
+				for _, s := range p.Steps[g.li[i]+1:] {
+					te := &termEnv{}
+					b, isB := te.bool(simplify(mapTerm(s.Cond.T, sub)))
+					if !isB {
+						ok = false
+						break
+					}
+					if b != s.Cond.Truth {
+						feasible = false
+						break
+					}
+				}
+				if !ok {
+					break
+				}
+				if feasible {
+					if chosen >= 0 {
+						ok = false
+						break
+					}
+					chosen = i
+				}
+			}
+			if !ok || chosen < 0 {
+				ok = false
+				break
+			}
+			pk := pick{a: chosen}
+			for _, t := range cur[chosen].Vals {
+				pk.vals = append(pk.vals, simplify(mapTerm(t, sub)))
+			}
+			picks[ei] = pk
+		}
+		if !ok {
+			continue
+		}
+		l2 := *l
+		l2.Iter = nil
+		conv := map[*Path]*Path{}
+		for _, ip := range l.Iter {
+			if ip.End != "break" {
+				l2.Iter = append(l2.Iter, ip)
+				continue
+			}
+			for ei, ex := range exits {
+				if ex == ip {
+					a := cur[picks[ei].a]
+					q := clonePath(ip)
+					q.End, q.Vals, q.Node = a.End, picks[ei].vals, a.Node
+					conv[ip] = q
+					l2.Iter = append(l2.Iter, q)
+				}
+			}
+		}
+		for ei, ex := range exits {
+			a := cur[picks[ei].a]
+			li := g.li[picks[ei].a]
+			q := clonePath(a)
+			q.Steps = append([]Step(nil), a.Steps[:li+1]...)
+			q.Steps[li].Loop = &l2
+			q.Vals = picks[ei].vals
+			if ex != nil {
+				q.Steps = append(q.Steps, conv[ex].Steps...)
+			}
+			if ex == nil {
+				last = append(last, q) // the exhausted loop last, as SX orders outcomes
+			} else {
+				added = append(added, q)
+			}
+		}
+		for _, i := range g.after {
+			drop[i] = true
+		}
+		for _, i := range g.inloop {
+			q := clonePath(cur[i])
+			q.Steps[g.li[i]].Loop = &l2
+			repl[i] = q
+		}
+	}
+	if len(drop) == 0 {
+		return cur
+	}
+	var out []*Path
+	for i, p := range cur {
+		if drop[i] {
+			continue
+		}
+		if q, ok := repl[i]; ok {
+			p = q
+		}
+		out = append(out, p)
+	}
+	return append(append(out, added...), last...)
+}
